@@ -299,6 +299,11 @@ def calibration(fd=1):
     ]
 
 
+# the verifier model: Verifier2.tla is Verifier.tla plus the corrections X10 found by differential testing against the
+# kernel on 57 000 single-edit mutants of generator output (no program the model accepts is rejected by the kernel)
+MODEL = os.environ.get("C05_MODEL", "Verifier2")
+
+
 def run_model(ctx, wd, cases, tag):
     """-> {case number: sorted list of (rule, pc)} for rejected programs; accepted ones map to []"""
     out = {}
@@ -306,7 +311,7 @@ def run_model(ctx, wd, cases, tag):
     for start in range(0, len(cases), CH):
         path = os.path.join(wd, f"{tag}{start}.json")
         json.dump(cases[start:start + CH], open(path, "w"))
-        res = T.run(wd, "Verifier", "Verifier.cfg", timeout=3000, deadlock=False, env={"TRACE_FILE": path})
+        res = T.run(wd, MODEL, MODEL + ".cfg", timeout=3000, deadlock=False, env={"TRACE_FILE": path})
         os.remove(path)
         if res.error:
             raise T.MachineryError("Verifier failed:\n" + res.error[:3000])
